@@ -13,7 +13,7 @@ from .lib import *
 from .btab import BuiltinTables
 from . import builtin_rules as br
 
-NEEDS_FLOW = False  # flow rules are added in c05_flow once the MIR engine is wired
+NEEDS_FLOW = True
 
 EXPLANATION = (
     "Families M/W/S over the CEK machine and its cost model. Shape facts (syn): the first statement of every Machine::compute arm is "
